@@ -47,3 +47,6 @@ pub(crate) use socket::core::CoreState;
 
 // Socket and SocketType are fundamental for users.
 pub use socket::types::{Socket, SocketType};
+
+#[cfg(any(rzmq_verif, kani))]
+pub mod verif_facade;
